@@ -99,10 +99,11 @@ Example C06_nonvacuous :
     forallb (fun '(n, c) => bool_decide (c = indeg (succ s) n + L n))
             (map_to_list (refc s)) in
   let s' := world_get (fst (step w 0 (OGc None))) 0 in
-  dom (succ s) = list_to_set [1; 2; 3; 4; 5; 6; 7]%positive ∧
+  bool_decide (dom (succ s) = list_to_set [1; 2; 3; 4; 5; 6; 7]%positive) = true ∧
   exact s = true ∧
   snd (step w 0 (OGc None)) = Ok VU ∧
-  dom (succ s') = list_to_set [1; 4; 6; 7]%positive ∧
-  exact s' = true ∧ refc s' !! 7%positive = Some 1 ∧ ite_tab s' = ∅ ∧
+  bool_decide (dom (succ s') = list_to_set [1; 4; 6; 7]%positive) = true ∧
+  exact s' = true ∧ refc s' !! 7%positive = Some 1 ∧
+  bool_decide (ite_tab s' = ∅) = true ∧
   min_free s' = 2%positive.
 Proof. by vm_compute. Qed.
